@@ -100,6 +100,30 @@ def run(ctx):
                 if r['text']['ret'] not in (2, 3):
                     ctx.violation('unknown-presented-as-good', 'peer with unknown %s %r got status %r' % (c, n, r['text']['ret']), {'op': 'output', 'peer': pj})
     ctx.extra['unknown_name_items'] = n_unknown
+    # a database name with surrounding blanks is another name: the database does not know it, and every view says so (the report shows the name the peer sent;
+    # blanks inside a name-list element are legal bytes of the name).  Judged on the raw report text, not through the name parser.
+    padded = []
+    for c in ('kex', 'key', 'enc', 'mac'):
+        for n in rng.sample(sorted(x for x in db[c] if not x.endswith('-*')), 2 if q else 8):
+            for form in (n + ' ', ' ' + n, n + '\t'):
+                base = {'banner': 'SSH-2.0-OpenSSH_8.9', 'kex': ['curve25519-sha256'], 'key': ['ssh-ed25519'], 'enc': ['aes256-ctr'], 'mac': ['hmac-sha2-256'], 'client_audit': False}
+                base[c] = base[c] + [form]
+                padded.append((c, form, base))
+    for c, form, p in padded:
+        r = reportfam.run_case(p)
+        ctx.evaluations += 1
+        if r['text']['exc'] is not None or r['json']['exc'] is not None:
+            ctx.violation('output-exception/padded-name', 'output() raised for a name with surrounding blanks: %r' % form, {'op': 'output', 'peer': reportfam.jsonable_peer(p)})
+            continue
+        txt = canon.strip_ansi(r['text']['text'])
+        lines = [ln for ln in txt.split('\n') if ln.startswith('(%s) ' % c) and form.strip() in ln]
+        jn = [a for a in canon.json_algs(r['pjson']) if a['cat'] == c and a['name'] == form]
+        t_unknown = any('unknown algorithm' in ln for ln in lines)
+        j_unknown = bool(jn) and any('unknown algorithm' in t for (l, t) in jn[0]['notes'])
+        nontriv.add(('padded-name', c))
+        if not t_unknown or not j_unknown:
+            ctx.violation('padded-name-rated-as-known/%s' % c, '%s name %r (a database name with surrounding blanks: unknown to the database) - text says unknown: %r, JSON says unknown: %r' % (c, form, t_unknown, j_unknown),
+                          {'op': 'output', 'peer': reportfam.jsonable_peer(p)})
     # --lookup agrees with the report for every database name (incl. concrete gss instantiations)
     names = []
     for (c, n) in allnames:
